@@ -264,6 +264,12 @@ func (h *Hist) setLoad(gi int, pct int, jitter int) {
 func (h *Hist) pctChoice(gi int) (int, int) {
 	o := h.cfgs[gi]
 	lo, up, su := o.TaintLowerCapacityThresholdPercent, o.TaintUpperCapacityThresholdPercent, o.ScaleUpThresholdPercent
+	if focus == "up" && h.r.chance(60) {
+		return su + h.r.rng(1, 150), 0
+	}
+	if focus == "bands" && h.r.chance(50) {
+		return []int{lo, up, su}[h.r.intn(3)], h.r.rng(-2, 2)
+	}
 	switch h.r.intn(12) {
 	case 0:
 		return 0, 0
@@ -303,6 +309,9 @@ func (h *Hist) randomEvent() string {
 	hard := int64(o.HardDeleteGracePeriodDuration() / time.Second)
 	cool := o.ScaleUpCoolDownPeriodDuration()
 	ev := r.intn(22)
+	if focus == "up" && r.chance(35) {
+		ev = r.pickI(4, 4, 5, 16, 13) // tainted nodes to reuse, force-tainted nodes to remove first, ties, deliveries
+	}
 	if focus == "faults" && r.chance(30) {
 		ev = r.pickI(15, 15, 4, 19, 13) // odd nodes, odd taint values, vanished objects, deliveries
 	}
